@@ -759,6 +759,9 @@ namespace ip {
 
 	void tcp::socket::packet_dropped(aux::packet p)
 	{
+		// the socket may have been closed while the segment was on its way
+		if (!m_channel) return;
+
 		int remote = m_channel->remote_idx(m_bound_to);
 		p.hops = m_channel->hops[remote];
 		m_outgoing_packets.push_back(std::move(p));
